@@ -93,12 +93,12 @@ template<RegKind K, uint32_t IDX> static void a64_reg_path(uint32_t id) {
   observe_text<16>(sb);
   reached_reg = true;
 }
-// through format_operand the first and the last element are decided (two paths); every index is decided on format_register itself (a64_elem_case)
+// through format_operand the last element of the vector is decided; every index is decided on format_register itself (a64_elem_case)
 template<RegKind K> static void a64_reg_case() {
   uint32_t id = nondet_u8() & 31;
   if (is_gp<K>() && id == 31) id = 30;   // 31 is the stack pointer, 63 the zero register: h_a64reg_special
   reached_reg = false;
-  if constexpr (is_element<K>()) { if (nondet_bool()) a64_reg_path<K, 0>(id); else a64_reg_path<K, lane_count<K>() - 1>(id); }
+  if constexpr (is_element<K>()) a64_reg_path<K, lane_count<K>() - 1>(id);
   else a64_reg_path<K, 0>(id);
   if (reached_reg) V_WITNESS("a64 reg formatted");
 }
@@ -111,7 +111,17 @@ HARNESS h_a64reg_d() { a64_reg_case<kD>(); }
 HARNESS h_a64reg_q() { a64_reg_case<kQ>(); }
 HARNESS h_a64reg_v8b() { a64_reg_case<kV8B>(); }
 HARNESS h_a64reg_v16b() { a64_reg_case<kV16B>(); }
-HARNESS h_a64reg_v4h() { a64_reg_case<kV4H>(); }
+// Vn.4H or Vn.2H; with known finding C20B open (Vn.2H is shown as vN.8h) the .2H form is left to the companion harness below
+HARNESS h_a64reg_v4h() {
+  uint32_t id = nondet_u8() & 31;
+  bool two = nondet_bool();
+#if KF_C20B
+  two = false;
+#endif
+  reached_reg = false;
+  if (two) a64_reg_path<kV2H, 0>(id); else a64_reg_path<kV4H, 0>(id);
+  if (reached_reg) V_WITNESS("a64 reg formatted");
+}
 HARNESS h_a64reg_v8h() { a64_reg_case<kV8H>(); }
 HARNESS h_a64reg_v2s() { a64_reg_case<kV2S>(); }
 HARNESS h_a64reg_v4s() { a64_reg_case<kV4S>(); }
